@@ -3,9 +3,9 @@
 # Like run_seed.sh, but the patch is applied to a scratch worktree of /repo's HEAD
 # and the check runs with VERIF_REPO/VERIF_COQ pointing at it (used while other
 # jobs need /repo untouched).
-ID="$1"; SRC="${2:-/verif/seeded/$ID}"
-D=/verif/seeded/$ID
-N=seed$ID
+ID="$1"; SRC="${2:-/verif/seeded/$ID}"; NAME="${3:-$ID}"
+D=/verif/seeded/$NAME
+N=seed$NAME
 mkdir -p $D
 if [ "$SRC" != "$D" ]; then cp $SRC/patch.diff $SRC/demo.py $SRC/meta.json $D/ 2>/dev/null; fi
 cd /verif
@@ -19,7 +19,7 @@ LINE=$(grep -E "^(VIOLATION|OK)" $D/check_quick.log | tail -1)
 RP=$(echo "$LINE" | sed -n 's/.*replay=\([^ ]*\).*/\1/p')
 [ -n "$RP" ] && [ -f "$RP" ] && cp "$RP" $D/replay.json
 tools/rmscratch.sh $N
-echo "$ID demo_pristine_exit=$P demo_mutated_exit=$M check_exit=$C :: $LINE"
+echo "$NAME demo_pristine_exit=$P demo_mutated_exit=$M check_exit=$C :: $LINE"
 /venv/bin/python - <<PY
 import json
 p='$D/meta.json'
